@@ -15,6 +15,15 @@ package proto
 //@ ghost field (Column) nrows Int
 //@ ghost field (ColResult) nrows Int
 //@ ghost field (ColInput) nrows Int
+//@ -- statelen: the number of bytes of the column's state prefix (the part of the wire format written
+//@ -- by EncodeState and read by DecodeState before the column data); an abstract constant of the
+//@ -- wrapped column, the same object seen through any of its interfaces
+//@ ghost field (ColumnOf) statelen Int
+//@ ghost field (Column) statelen Int
+//@ ghost field (ColInput) statelen Int
+//@ ghost field (ColResult) statelen Int
+//@ ghost field (StateEncoder) statelen Int
+//@ ghost field (StateDecoder) statelen Int
 
 //@ interface ColumnOf.Rows(c) (n)
 //@   ensures n == c.nrows && 0 <= n
@@ -100,10 +109,12 @@ package proto
 //@   modifies r.pos, r.failed, r.b.Buf
 //@   ensures err == nil ==> r.failed == old(r.failed)
 //@   ensures old(r.pos) <= r.pos && r.pos <= r.end
+//@   ensures err == nil ==> r.pos == old(r.pos) + c.statelen
 //@ interface StateEncoder.EncodeState(c, b)
 //@   requires b != nil
 //@   modifies b.Buf
 //@   ensures appendsOnly(b)
+//@   ensures len(b.Buf) == old(len(b.Buf)) + c.statelen
 
 //@ -- Binding a block to caller-supplied targets.  Per-iteration form of "every column reports the
 //@ -- block's row count": each loop iteration leaves ITS target at exactly b.Rows rows (reset first,
@@ -679,32 +690,82 @@ package proto
 //@   ensures err == nil ==> r.failed == old(r.failed)
 //@   ensures old(r.pos) <= r.pos && r.pos <= r.end
 
+//@ -- ColRawOf[X]: fixed-size values of any type X reinterpreted as bytes.  The element layout is a
+//@ -- type parameter, so the contract is about safety, the row count and failure propagation only
+//@ -- (the byte view is modelled as a separate buffer of size*rows bytes; see DESIGN I.6).
+//@ contract (c *ColRawOf) DecodeColumn(r, rows) (err) props(C06,C07,C08)
+//@   requires c != nil && r != nil && 0 <= rows && rows <= maxRowsInBLock
+//@   modifies *c, contents(*c), r.pos, r.failed, r.b.Buf
+//@   ensures err == nil ==> r.failed == old(r.failed)
+//@   ensures err == nil ==> len(*c) == old(len(*c)) + rows {rows}
+
 //@ -- state prefixes of wrappers: delegated to the wrapped column when it has state
-//@ contract (c *ColArr) DecodeState(r) (err) props(C06,C07,C08)
+//@ contract (c *ColArr) DecodeState(r) (err) props(C01,C06,C07,C08)
 //@   requires c != nil && r != nil && c.Data != nil
 //@   modifies r.pos, r.failed, r.b.Buf
 //@   ensures err == nil ==> r.failed == old(r.failed)
 //@   ensures old(r.pos) <= r.pos && r.pos <= r.end
-//@ contract (c *ColNullable) DecodeState(r) (err) props(C06,C07,C08)
+//@   ensures err == nil ==> r.pos == old(r.pos) + ite(implements(c.Data, StateDecoder), c.Data.statelen, 0) [C01] {consumes-exactly-the-state-prefixes-of-its-parts}
+//@ contract (c *ColNullable) DecodeState(r) (err) props(C01,C06,C07,C08)
 //@   requires c != nil && r != nil && c.Values != nil
 //@   modifies r.pos, r.failed, r.b.Buf
 //@   ensures err == nil ==> r.failed == old(r.failed)
 //@   ensures old(r.pos) <= r.pos && r.pos <= r.end
-//@ contract (c *ColLowCardinality) DecodeState(r) (err) props(C06,C07,C08)
+//@   ensures err == nil ==> r.pos == old(r.pos) + ite(implements(c.Values, StateDecoder), c.Values.statelen, 0) [C01] {consumes-exactly-the-state-prefixes-of-its-parts}
+//@ contract (c *ColLowCardinality) DecodeState(r) (err) props(C01,C06,C07,C08)
 //@   requires c != nil && r != nil
 //@   modifies r.pos, r.failed, r.b.Buf
 //@   ensures err == nil ==> r.failed == old(r.failed)
 //@   ensures old(r.pos) <= r.pos && r.pos <= r.end
+//@   ensures err == nil ==> r.pos == old(r.pos) + 8 + ite(implements(c.index, StateDecoder), c.index.statelen, 0) [C01] {consumes-exactly-the-state-prefixes-of-its-parts}
 //@ contract (c *ColLowCardinalityRaw) DecodeState(r) (err) props(C06,C07,C08)
 //@   requires c != nil && r != nil
 //@   modifies r.pos, r.failed, r.b.Buf
 //@   ensures err == nil ==> r.failed == old(r.failed)
 //@   ensures old(r.pos) <= r.pos && r.pos <= r.end
-//@ contract (c *ColMap) DecodeState(r) (err) props(C06,C07,C08)
+//@ contract (c *ColMap) DecodeState(r) (err) props(C01,C06,C07,C08)
 //@   requires c != nil && r != nil && c.Keys != nil && c.Values != nil
 //@   modifies r.pos, r.failed, r.b.Buf
 //@   ensures err == nil ==> r.failed == old(r.failed)
 //@   ensures old(r.pos) <= r.pos && r.pos <= r.end
+//@   ensures err == nil ==> r.pos == old(r.pos) + ite(implements(c.Keys, StateDecoder), c.Keys.statelen, 0) + ite(implements(c.Values, StateDecoder), c.Values.statelen, 0) [C01] {consumes-exactly-the-state-prefixes-of-its-parts}
+
+//@ -- ... and the encoders write exactly those prefixes, in the same order (keys before values)
+//@ contract (c *ColArr) EncodeState(b) props(C01)
+//@   requires c != nil && b != nil
+//@   modifies b.Buf
+//@   ensures appendsOnly(b)
+//@   ensures len(b.Buf) == old(len(b.Buf)) + ite(implements(c.Data, StateEncoder), c.Data.statelen, 0) {writes-exactly-the-state-prefix-of-its-data}
+//@ contract (c ColNullable) EncodeState(b) props(C01)
+//@   requires b != nil
+//@   modifies b.Buf
+//@   ensures appendsOnly(b)
+//@   ensures len(b.Buf) == old(len(b.Buf)) + ite(implements(c.Values, StateEncoder), c.Values.statelen, 0) {writes-exactly-the-state-prefix-of-its-values}
+//@ contract (c ColMap) EncodeState(b) props(C01)
+//@   requires b != nil
+//@   modifies b.Buf
+//@   ensures appendsOnly(b)
+//@   ensures len(b.Buf) == old(len(b.Buf)) + ite(implements(c.Keys, StateEncoder), c.Keys.statelen, 0) + ite(implements(c.Values, StateEncoder), c.Values.statelen, 0) {writes-the-state-prefixes-of-keys-and-of-values}
+//@ callsite StateEncoder.EncodeState#2
+//@   assert len(b.Buf) == old(len(b.Buf)) + ite(implements(c.Keys, StateEncoder), c.Keys.statelen, 0) [C01] {the-key-state-prefix-is-written-before-the-value-state-prefix}
+//@ contract (c ColLowCardinality) EncodeState(b) props(C01)
+//@   requires b != nil
+//@   modifies b.Buf
+//@   ensures appendsOnly(b)
+//@   ensures len(b.Buf) == old(len(b.Buf)) + 8 + ite(implements(c.index, StateEncoder), c.index.statelen, 0) {version-word-then-the-index-state}
+//@   ensures unle64(b.Buf[old(len(b.Buf))], b.Buf[old(len(b.Buf)) + 1], b.Buf[old(len(b.Buf)) + 2], b.Buf[old(len(b.Buf)) + 3], b.Buf[old(len(b.Buf)) + 4], b.Buf[old(len(b.Buf)) + 5], b.Buf[old(len(b.Buf)) + 6], b.Buf[old(len(b.Buf)) + 7]) == 1 {key-serialization-version-is-1}
+
+//@ contract (c ColNamed) EncodeState(b) props(C01)
+//@   requires b != nil
+//@   modifies b.Buf
+//@   ensures appendsOnly(b)
+//@   ensures len(b.Buf) == old(len(b.Buf)) + ite(implements(c.ColumnOf, StateEncoder), c.ColumnOf.statelen, 0) {writes-exactly-the-state-prefix-of-the-named-column}
+//@ contract (c ColNamed) DecodeState(r) (err) props(C01,C06,C07,C08)
+//@   requires r != nil && c.ColumnOf != nil
+//@   modifies r.pos, r.failed, r.b.Buf
+//@   ensures err == nil ==> r.failed == old(r.failed)
+//@   ensures old(r.pos) <= r.pos && r.pos <= r.end
+//@   ensures err == nil ==> r.pos == old(r.pos) + ite(implements(c.ColumnOf, StateDecoder), c.ColumnOf.statelen, 0) [C01] {consumes-exactly-the-state-prefixes-of-its-parts}
 
 // ---------------------------------------------------------------------------
 // Tuple: a slice of columns.  Statements about "every element" are made as: a successful return
